@@ -437,6 +437,29 @@ def check_many_records(ctx, rep, channels=('DEC', 'ENC')):
                          got=r[:200] + ' ... ' + r[-120:], expected=e[:200] + ' ... ' + e[-120:], records=c.count('010600000027') if 'DEC' in c else c.count('SequencingRequired'))
 
 
+VBASES = [1, 65530, 65534, 65535, 65536, 70000, 2 ** 32 - 3, 2 ** 32 - 1, 2 ** 32, 2 ** 32 + 40, 2 ** 48 + 5, 2 ** 63]
+
+
+def check_far_positions(ctx, rep, values):
+    """C09 at positions no real buffer reaches: the encoders run on a harness writer that reports `base` octets already
+    written (without storing them).  What they append must be what they append to an empty writer, and no positional
+    overwrite may land below `base`.  values: [('M'|'A', value text)]"""
+    rng = ctx.rng
+    ref = ctx.runner.run([('ENC\t%s\t' % v) if k == 'M' else ('ENCA\t%s\t' % v) for k, v in values], IMPLS)
+    cases = ['ENCV\t%d\t%s\t%s' % (rng.choice(VBASES), k, v) for k, v in values]
+    res = ctx.runner.run(cases, IMPLS)
+    for w in IMPLS:
+        for c, r0, r in zip(cases, ref[w], res[w]):
+            rep.evaluations += 1
+            rep.dist['far_position'] += 1
+            want = r0.split(' glen=')[0]
+            if want.startswith('Ok '):
+                want += ' low=0'
+            if r != want and not (want.startswith('PANIC') and r.startswith('PANIC')):
+                rep.fail('encoding at a far writer position does not append what it appends to an empty writer, or overwrites earlier content',
+                         case=c[:400], executor=w, got=r[:200], expected=want[:200])
+
+
 # ---- observations: what a property's correspondence compares (DESIGN 6.2) ----
 def o_full(c, r):
     return r
@@ -1018,6 +1041,8 @@ def run_c09(ctx):
             pre.append(rbytes(rng, rng.choice([1, 2, 3, 255, 256, 1023, 1024])))
         else:
             pre.append(rbytes(rng, rng.choice([65534, 65535, 65536, 65537, 70000, 131073, 65500, 65510, 65520, 65523, 65524, 65530, 131060])))
+    far = [('M', v) for v in vals[:ctx.scale(150, 1500)]] + [('A', rand_avp(rng, maxpay=300)) for _ in range(ctx.scale(150, 1500))]
+    check_far_positions(ctx, rep, far)
     a = ['ENC\t%s\t' % v for v in vals]
     b = ['ENC\t%s\t%s' % (v, p.hex()) for v, p in zip(vals, pre)]
     ra = run_compare(ctx, rep, a, ['enc_empty'] * len(a), o_enc_len)
@@ -1294,6 +1319,8 @@ def run_c12(ctx):
                          got=rh[w][i][:300], expected=want[:300])
             elif len(exp) != 16 * ((2 + len(payload) + len(lp) + 15) // 16):
                 rep.fail('hidden value length is not 16*ceil((2+|payload|+|lp|)/16)', case=h[i][:500], executor=w)
+    # the wire form (H bit, clear attribute type, length) does not depend on where in a writer the hidden AVP is put
+    check_far_positions(ctx, rep, [('A', rh['release'][i][3:]) for i in range(0, len(vals), 7) if rh['release'][i].startswith('Ok Hidden(') and len(rh['release'][i]) < 2050])
     # alignment padding beyond what is needed is inert
     inert = []
     for i in range(0, len(vals), 3):
